@@ -96,6 +96,9 @@ def main():
         if pid not in CHECKS or pid not in built:
             continue
         tech, text, note, ref = CHECKS[pid]
+        if pid in FUZZ:
+            tech += "; thorough tier: coverage-guided libFuzzer campaign(s) " + FUZZ[pid] + " with the same oracle inside the target"
+            text += " Thorough additionally runs fixed-work libFuzzer campaigns on 16 processes (" + FUZZ[pid] + "; DESIGN.md 8.6)."
         checks.append({
             "property_id": pid,
             "quick_cmd": "./check %s quick" % pid,
@@ -132,5 +135,13 @@ def main():
     print("wrote MANIFEST.json with", len(checks), "checks,", len(na), "not_applicable")
 
 HOOK_COMMITS = ["d2cf280"]
+FUZZ = {
+ "C02": "fz_expr (bytes = random stream of the expression/context strategy)",
+ "C03": "fz_prog (bytes = random stream of the three-template program strategy)",
+ "C06": "fz_add (bytes = template source, lexeme dictionary, repository inputs as corpus)",
+ "C08": "fz_ws (bytes = random stream of the segment-list/delimiter strategy)",
+ "C09": "fz_expr and fz_prog",
+ "C12": "fz_add and fz_expr",
+}
 if __name__ == "__main__":
     main()
